@@ -304,6 +304,14 @@ static FILLERS: &[(&str, &str)] = &[
     ("eol-comment-crlf", " # x\r\n"),
     ("empty-eol-comment", " #\n"),
     ("mixed", " \t/* c */\n# d\n  "),
+    ("two-eol-comments", "# a\n# b\n"),
+    ("two-eol-comments-indented", "  # a\n  # b\n  "),
+    ("two-block-comments", "/* a */ /* b */"),
+    ("adjacent-block-comments", "/*a*//*b*/"),
+    ("eol-then-block-comment", "# a\n /* b */"),
+    ("eol-comment-cr", " # x\r"),
+    ("eol-comment-cr-cr", " # x\r\r# y\r"),
+    ("non-ascii-comment", "/* \u{e9}\u{6f22} */ # \u{1f600}\n"),
 ];
 
 fn leaf(r: &mut Rng) -> E {
